@@ -33,6 +33,10 @@ def gen_checksums(rng, n=None):
     for t in rng.sample(CHECKSUM_TYPES, n):
         alphabet = HEX if style < 0.8 else "0123456789ABCDEF" if style < 0.9 else HEX + "ABCDEF"
         out[t] = text.chars(rng, alphabet, CHECKSUM_LEN[t], CHECKSUM_LEN[t])
+    if style > 0.97:
+        # a checksum VALUE is free text to the library: some tools write it OCI-style, prefixed with its own algorithm name
+        for t in list(out):
+            out[t] = rng.choice(["%s:%s" % (t, out[t]), "%s=%s" % (t.upper(), out[t]), " " + out[t], out[t] + "  -"])
     return out
 
 
